@@ -647,6 +647,8 @@ func treeString(snap *http2.VerifC20Snap) string {
 
 const bigWindow = 1 << 20
 
+const watchdog = 15 * time.Second
+
 // drain opens every window and pops until the scheduler reports nothing: what
 // comes out must be exactly what the reference still owes.
 func (s *sys) drain() (pops int, vi *violation) {
@@ -769,24 +771,25 @@ type found struct {
 }
 
 type search struct {
-	j         *job
-	depth     int
-	buckets   [nBuckets]bucket
-	mu        sync.Mutex
-	found     map[string]*found
-	feats     map[string]struct{}
-	samples   [][]string
-	states    int64
-	trans     int64
-	drains    int64
-	drainPops int64
-	replays   int64
-	incomplete int64 // random: Pop choices never observed
+	j           *job
+	depth       int
+	buckets     [nBuckets]bucket
+	mu          sync.Mutex
+	found       map[string]*found
+	feats       map[string]struct{}
+	samples     [][]string
+	states      int64
+	trans       int64
+	drains      int64
+	drainPops   int64
+	replays     int64
+	incomplete  int64 // random: Pop choices never observed
+	zombies     int64 // frames of closed streams handed out (tolerated)
 	levelStates []int64
-	stop      atomic.Bool
-	deadline  time.Time
-	capped    string
-	maxStates int64
+	stop        atomic.Bool
+	deadline    time.Time
+	capped      string
+	maxStates   int64
 	// watchdog
 	workers []*workerState
 }
@@ -862,8 +865,8 @@ func (se *search) insert(k [16]byte, h hist, lvl int) {
 }
 
 type local struct {
-	trans, drains, drainPops, replays, incomplete int64
-	feats                                          map[string]struct{}
+	trans, drains, drainPops, replays, incomplete, zombies int64
+	feats                                                  map[string]struct{}
 }
 
 func (se *search) replayW(w *workerState, lc *local, h hist) *sys {
@@ -894,7 +897,9 @@ func (se *search) expand(w *workerState, lc *local, h hist, lvl int) {
 		}
 	}
 	ctl, ready := s.ref.Sendable()
+	z0 := s.ref.ZombiePops
 	pops, vi := s.drain() // destroys s
+	lc.zombies += int64(s.ref.ZombiePops - z0)
 	lc.drains++
 	lc.drainPops += int64(pops)
 	if vi != nil {
@@ -916,7 +921,9 @@ func (se *search) expand(w *workerState, lc *local, h hist, lvl int) {
 			w.cur.Store(&curExec{h: h, op: i, what: o.name})
 			w.busySince.Store(time.Now().UnixNano())
 			s2 := se.replayW(w, lc, h)
+			z0 := s2.ref.ZombiePops
 			out, ch, vi := s2.step(o)
+			lc.zombies += int64(s2.ref.ZombiePops - z0)
 			if vi != nil {
 				lc.trans++
 				nh[len(h)+1] = 0
@@ -1001,6 +1008,7 @@ func (se *search) run(nw int) {
 					se.drainPops += lc.drainPops
 					se.replays += lc.replays
 					se.incomplete += lc.incomplete
+					se.zombies += lc.zombies
 					for f := range lc.feats {
 						se.feats[f] = struct{}{}
 					}
@@ -1182,7 +1190,7 @@ func TestCheck(t *testing.T) {
 		"operations the WriteScheduler contract forbids are not generated: OpenStream of an open or once-closed stream, CloseStream of a non-open stream, HEADERS/DATA pushes on non-open streams, stream id 0",
 		"random scheduler: which ready stream Pop serves is decided by Go's map iteration; Pop is repeated (≤400 tries per ready stream) until every ready stream has been observed as the choice, so all successors are explored; states where that did not succeed are counted in random_pop_choice_sets_incomplete (0 = none)",
 		"frames queued on a stream at the time it is closed are outside the statement's hand-out obligation: handing one out (at most once) is tolerated and counted in zombie_pops",
-		"a Pop that never returns is detected by a wall-clock watchdog (8 s for a microsecond operation) and confirmed in 5 fresh processes")
+		"a Pop that never returns is detected by a wall-clock watchdog (15 s for a microsecond operation) and confirmed in 5 fresh processes")
 	all := jobs()
 	type jobSum struct {
 		Name        string  `json:"job"`
@@ -1231,7 +1239,7 @@ func TestCheck(t *testing.T) {
 				case <-tk.C:
 					now := time.Now().UnixNano()
 					for _, w := range se.workers {
-						if b := w.busySince.Load(); b != 0 && now-b > int64(8*time.Second) {
+						if b := w.busySince.Load(); b != 0 && now-b > int64(watchdog) {
 							select {
 							case hangCh <- w.cur.Load():
 							default:
@@ -1268,7 +1276,7 @@ func TestCheck(t *testing.T) {
 			if hung == 5 {
 				vi := &violation{kind: "hang", extra: map[string]any{}}
 				rep.Violate(se.sig(vi), map[string]any{"job": j.name, "ops": opsList},
-					"%s: the scheduler does not return: after %v the call %s runs forever (watchdog 8 s; reproduced in 5 of 5 fresh processes, each killed after 6 s)", j.name, hang.h.ops(j), opsList[len(opsList)-1])
+					"%s: the scheduler does not return: after %v the call %s runs forever (watchdog 15 s; reproduced in 5 of 5 fresh processes, each killed after 6 s)", j.name, hang.h.ops(j), opsList[len(opsList)-1])
 			} else {
 				rep.HarnessError("%s: watchdog fired on %v but only %d of 5 fresh processes hung (%d completed)", j.name, opsList, hung, completed)
 			}
@@ -1290,6 +1298,7 @@ func TestCheck(t *testing.T) {
 		rep.Add("drain_pops", se.drainPops)
 		rep.Add("replays", se.replays)
 		rep.Add("random_pop_choice_sets_incomplete", se.incomplete)
+		rep.Add("zombie_pops", se.zombies)
 		rep.Add("jobs", 1)
 		rep.SetMax("max_depth", int64(depth))
 		for f := range se.feats {
@@ -1338,6 +1347,7 @@ func TestCheck(t *testing.T) {
 	rep.Info["jobs_detail"] = sums
 	rep.Info["tier_bounds"] = "depth per job in jobs_detail; quick and thorough use the same alphabets, thorough searches deeper"
 	rep.Info["workers"] = nw
+	rep.Info["bounds_vs_design"] = "DESIGN.md §5 C20 asked for one 113-operation alphabet to depth 8/7 (quick 6/5); that space is too large, so it is split into focused alphabets, each searched exhaustively to its own depth: flow (2 streams, all push kinds, stream windows {0,1,3}, connection windows {0,2,8}, max frame 2 or 16384), ring (3 streams, open/close/push/pop), edge-windows (negative and zero windows, empty DATA, SetMaxFrame), tree (priority: all 80 Adjust(s in {1,3,5,7}, dep in {0,1,3,5,7}, exclusive, weight in {0,255}) + idle 9, 11 + pushed streams), big-frames (throttle, 1500-byte DATA). Depth per job is in jobs_detail."
 }
 
 func max64(a, b int64) int64 {
